@@ -1045,6 +1045,13 @@ class _HitenBase(_SerializeBase, ABC):
             if self._is_service_related_attr(attr_name):
                 state.pop(attr_name, None)
         
+        # Values that an earlier load moved onto the source object and that have
+        # been invalidated since must not be saved again from the stale copy
+        # that load left in this object's __dict__
+        for attr_name in state.pop("_restored_from_state", ()):
+            if source is not None and getattr(source, attr_name, None) is None:
+                state.pop(attr_name, None)
+
         # Convert all remaining values to serializable format
         for key, value in state.items():
             state[key] = self._make_serializable(value)
@@ -1157,13 +1164,17 @@ class _HitenBase(_SerializeBase, ABC):
         if hasattr(self, '_computed_properties_to_restore'):
             target = self._set_computed_properties_target()
             if target is not None:
+                restored = set()
                 for attr_name, value in self._computed_properties_to_restore.items():
                     if hasattr(target, attr_name):
                         try:
                             setattr(target, attr_name, value)
+                            restored.add(attr_name)
                         except (AttributeError, TypeError):
                             # Skip properties that can't be set (e.g., read-only properties)
                             continue
+                # The target owns these values from now on (see __getstate__)
+                self._restored_from_state = restored
             # Clean up the temporary storage
             delattr(self, '_computed_properties_to_restore')
         
